@@ -797,6 +797,7 @@ pub fn execute(plan: &HistPlan, preds: &[Predictor], ex: &mut Exec) -> (Option<V
         };
 
         let mut step_violation: Option<(Focus, String, String)> = None;
+        #[allow(unused_assignments)]
         let mut outcome: u8 = 0;
 
         if op.is_update_or_ctor() {
